@@ -1,8 +1,8 @@
 #!/bin/bash
 # usage: trymutant.sh <patch.diff> <ID>...   applies the patch to /repo, runs the checks, reverts.
 patch=$1; shift
-cd /repo && git apply "$patch" || { echo "patch does not apply"; exit 3; }
-trap 'cd /repo && git checkout -- . && git clean -fdq' EXIT
+cd /repo && { git apply "$patch" 2>/dev/null || git apply -3 "$patch" 2>/dev/null; } || { echo "patch does not apply"; exit 3; }
+trap 'cd /repo && git reset -q --hard HEAD && git clean -fdq' EXIT
 for id in "$@"; do
   out=$(/verif/bin/gosmt check $id 2>&1); rc=$?
   echo "== $id rc=$rc"; echo "$out" | grep -E "^(VIOLATION|KNOWN|INCONCLUSIVE|OK|  harness=)" | cut -c1-260 | head -12
